@@ -199,7 +199,7 @@ def main(tier, seed):
             rep.inconc('could not build %s level %d: %s' % (name, level, what))
         else:
             rep.violation('build:%s:%d' % (name, level), 'copy program could not be compiled', {'program_family': name, 'level': level, 'status': st, 'detail': C.clip(what, 800)})
-    n = 400 if tier == 'quick' else 4000
+    n = 400 if tier == 'quick' else 10000
     results = C.pmap(_case, list(range(n)), chunksize=2, stop_after_bad=30,
                      is_bad=lambda r: any(it[0] == 'v' for it in r['items']))
     hist = {}
